@@ -48,6 +48,11 @@ func (m *MTProto) makeAuthKey() error { // nolint don't know how to make method 
 
 	// (encoding) p_q_inner_data
 	pq := big.NewInt(0).SetBytes(res.Pq)
+	// pq is the product of two primes: nothing else can be split (0 and 1 make SplitPQ divide by zero, on a
+	// prime it searches for ever)
+	if pq.Cmp(big.NewInt(3)) <= 0 || pq.ProbablyPrime(20) { //nolint:gomnd certainty of the primality test
+		return errors.New("handshake: pq is not a product of two primes")
+	}
 	p, q := math.SplitPQ(pq)
 	nonceSecond := tl.RandomInt256()
 	nonceServer := res.ServerNonce
